@@ -16,7 +16,10 @@ import tempfile
 
 ROOT = os.path.dirname(os.path.dirname(os.path.abspath(__file__)))
 # mutants whose manifestation needs machinery of another property's check
-ALSO = {"C19-2": ["C15"]}
+ALSO = {"C19-2": ["C15"], "C07-3": ["C15"], "C09-3": ["C16"],
+        "C14-3": ["C16"], "C16-4": ["C14"], "C17-3": ["C16"],
+        "C01-4": ["C04"], "C05-3": ["C09"], "C11-3": ["C07"],
+        "C18-3": ["C13"], "C19-4": ["C15"]}
 
 
 def run(check, patch, tier):
@@ -53,6 +56,8 @@ def main():
     for name in sorted(os.listdir(os.path.join(ROOT, "seeded"))):
         if only and name != only:
             continue
+        if "--round2" in sys.argv and name.split("-")[1] not in ("3", "4"):
+            continue
         d = os.path.join(ROOT, "seeded", name)
         patch = os.path.join(d, "patch.diff")
         if not os.path.exists(patch):
@@ -82,8 +87,9 @@ def main():
             {c: r["exit"] for c, r in results.items()}), what))
         print(rows[-1][:3], flush=True)
     if not only:
-        with open(os.path.join(ROOT, "selftest", "SEEDED_RESULTS.md"),
-                  "w") as f:
+        fn = "SEEDED_RESULTS_ROUND2.md" if "--round2" in sys.argv \
+            else "SEEDED_RESULTS.md"
+        with open(os.path.join(ROOT, "selftest", fn), "w") as f:
             f.write("# Seeded mutants (independent sub-agents) vs checks "
                     "(tier %s)\n\n| mutant | detected by | exit codes | "
                     "what it needs |\n|---|---|---|---|\n" % tier)
